@@ -45,6 +45,9 @@ pub struct Case {
     pub no_https: bool,
     #[serde(default)]
     pub no_http: bool,
+    /// when present the run is a CDN run instead (CdnClient::download cache-then-fetch-then-store)
+    #[serde(default)]
+    pub cdn: Option<super::cdn::CdnCase>,
 }
 
 // every 5xx is a transient server failure and every 4xx other than 429 a definitive refusal, not only the common codes
@@ -160,12 +163,13 @@ impl Scenario for Failover {
         "exploration"
     }
     fn rule(&self) -> &'static str {
-        "Per run: a behaviour for each of the three endpoints (TACT HTTPS, TACT HTTP, Ribbit TCP) out of {valid BPSV, valid V1 MIME (two disposition styles), valid V2 text, V2 text with a blank line, 500/502/503/504, 429 with/without Retry-After, 400/403/404, 200 with malformed/empty body, refused, reset, closed before/mid response, stall}, an endpoint class (versions/cdns/bgdl/TCP-only summary+certs/other), memory or disk protocol cache, a TCP segmentation policy, and a script of 1-6 steps Query | Advance(before/after the class's TTL) | NewClient(same cache dir) | SwapBehaviours, on the real RibbitTactClient over the simulated network under the virtual clock. Oracle: executable decision table (request log = prefix of [https,http,tcp] stopping at the first well-formed answer or definitive refusal; Ok iff that endpoint answered, document equal to what it served; cached answers produce zero network events until the TTL, at least one after; failures are never cached), and the same script repeated under other segmentations must give identical outcomes. Non-trivial = >= 2 queries or >= 1 fail-over; faults counted when they fire; distinct = hash of (case, request log, outcomes)."
+        "Per run: a behaviour for each of the three endpoints (TACT HTTPS, TACT HTTP, Ribbit TCP) out of {valid BPSV, valid V1 MIME (two disposition styles), valid V2 text, V2 text with a blank line, 500/502/503/504, 429 with/without Retry-After, 400/403/404, 200 with malformed/empty body, refused, reset, closed before/mid response, stall}, an endpoint class (versions/cdns/bgdl/TCP-only summary+certs/other), memory or disk protocol cache, a TCP segmentation policy, and a script of 1-6 steps Query | Advance(before/after the class's TTL) | NewClient(same cache dir) | SwapBehaviours, on the real RibbitTactClient over the simulated network under the virtual clock. Oracle: executable decision table (request log = prefix of [https,http,tcp] stopping at the first well-formed answer or definitive refusal; Ok iff that endpoint answered, document equal to what it served; cached answers produce zero network events until the TTL, at least one after; failures are never cached), and the same script repeated under other segmentations must give identical outcomes. One run in eight is a CDN run instead (scen/cdn.rs): the real CdnClient (download / download_archive_index) + ProtocolCache (memory or disk) over the simulated HTTP transport; a script of 1-7 steps Download(key, content type, per-request behaviour queue) | Index | Advance(around the configured TTLs) | NewClient(same directory); the host answers the successive requests of a download from the queue {ok, 5xx x8, 429 with no / 0 / 1 / 7 / unparsable Retry-After, 400/403/404/410, refused, reset, client time-out, body reset, body stall}. C13's oracles there: a download within the smallest configured TTL of a successful one sends no request and returns the same bytes (also by a new client on the same directory), after the largest TTL it sends one, a failed download is never served from the cache, every request names the caller's object, bytes equal what was served, a broken body is never Ok. Non-trivial = >= 2 queries or >= 1 fail-over; faults counted when they fire; distinct = hash of (case, request log, outcomes)."
     }
     fn assumptions(&self) -> Vec<&'static str> {
         vec![
             "transport failures are injected as ProtocolError::Network/Timeout (reqwest::Error has no public constructor); the classification treats them like reqwest's connect/timeout errors",
             "clock jumps land at least 10 s away from a TTL boundary",
+            "CDN arm: 'its time-to-live' of a downloaded object is either the configured CDN TTL or the configured configuration TTL (the property does not say; today it is the latter): caching is judged before the smaller and after the larger one only",
             "the interposed libc clock follows tokio's virtual clock with a granularity of 10 ms (ticker task)",
             "'well-formed' for a served body is decided by the real BPSV parser on the exact bytes served",
         ]
@@ -177,6 +181,8 @@ impl Scenario for Failover {
             ("RibbitClient (connect/read time-outs, read loop, V1 MIME + checksum / V2 parse)", "real (on the simulated TcpStream)"),
             ("ProtocolCache over MemoryCache / DiskCache", "real"),
             ("the three endpoints", "stub (scripted behaviours)"),
+            ("CDN arm: CdnClient::download / download_archive_index (cache key, URL building, cache-then-fetch-then-store), ProtocolCache over MemoryCache / DiskCache", "real"),
+            ("CDN arm: the CDN host, reqwest connection pool and its 45 s client time-out", "stub (in-process transport behind the http_send seam)"),
             ("kernel TCP, TLS, hyper, reqwest connection pool", "stub (in-process network)"),
             ("clocks", "simulated (paused tokio + interposed libc clock)"),
         ]
@@ -186,6 +192,10 @@ impl Scenario for Failover {
             Tier::Quick => 12_000,
             Tier::Thorough => 300_000,
         }
+    }
+
+    fn process_init(&self) {
+        super::cdn::process_init();
     }
 
     fn generate(&self, rng: &mut Rng, _tier: Tier) -> Case {
@@ -229,15 +239,23 @@ impl Scenario for Failover {
             script,
             no_https: rng.chance(1, 10),
             no_http: rng.chance(1, 10),
+            // drawn last: one run in eight exercises the CDN client's cache-then-fetch-then-store instead
+            cdn: if rng.chance(1, 8) { Some(super::cdn::generate(rng)) } else { None },
         }
     }
 
     fn execute(&self, case: &Case, ctx: &mut Ctx) -> Option<Violation> {
         let rt = super::paused_runtime();
+        if let Some(cdn) = &case.cdn {
+            return rt.block_on(super::cdn::run(cdn, ctx, super::cdn::Owner::C13));
+        }
         rt.block_on(run(case, ctx))
     }
 
     fn shrink(&self, case: &Case) -> Vec<Case> {
+        if let Some(cdn) = &case.cdn {
+            return super::cdn::shrink(cdn).into_iter().map(|c| Case { cdn: Some(c), ..case.clone() }).collect();
+        }
         let mut out = Vec::new();
         for s in shrink_vec(&case.script) {
             if s.iter().any(|x| *x == Step::Query) {
